@@ -119,6 +119,44 @@ pub fn recipe_case(ctx: &mut Ctx, input: &str, ext_bits: u32, conv: u8) -> Optio
 pub fn run(ctx: &mut Ctx) {
     ctx.rule = "inputs as for C04 (corpus, exhaustive short token strings, soups, structured recipes with references / intermediate references / modes, mutations), all 256 extension patterns, empty and bundled converter; per input the whole parse result (sections, items, components, relations, modifiers, metadata, diagnostics with labels) is compared with the model and the C06 invariant is evaluated on the implementation's recipe (valid or not). non-trivial = has components, several sections or diagnostics".into();
     let mut n = 0u64;
+    // well-formed recipes (references, intermediate references, text blocks, sections) in several styles,
+    // and a targeted family: text paragraphs and steps interleaved, then numbered / relative step and section references
+    {
+        let mut rng = crate::rng::Rng::new(ctx.seed ^ 0xC06A);
+        let mut texts: Vec<(String, u32, u8)> = Vec::new();
+        let nw = if ctx.thorough { 30_000 } else { 1_500 };
+        for i in 0..nw {
+            let r = crate::wf::generate(&mut rng, i % 4 != 0);
+            let st = if i % 3 == 0 { crate::wf::Style::plain() } else { crate::wf::Style { seed: rng.next(), spaces: true, comments: i % 3 == 2, wrap: i % 5 == 0, crlf: false, unit_space: i % 2 == 0 } };
+            texts.push((crate::wf::spell(&r, &st), if r.extended { 0xEEA } else { 0 }, (i % 2) as u8));
+        }
+        let nt = if ctx.thorough { 40_000 } else { 2_000 };
+        for i in 0..nt {
+            let mut s = String::new();
+            let nsec = 1 + rng.below(3);
+            for sec in 0..nsec {
+                if sec > 0 || rng.chance(1, 2) { s.push_str(&format!("= S{sec}\n\n")); }
+                let nb = 1 + rng.below(5);
+                let mut steps = 0;
+                for _ in 0..nb {
+                    if rng.chance(1, 3) { s.push_str("> a note\n\n"); continue; }
+                    let target = match rng.below(6) { 0 => format!("@&({})mix{{}}", 1 + rng.below(steps + 2)), 1 => format!("@&(~{})mix{{}}", 1 + rng.below(steps + 2)), 2 => format!("@&(={})mix{{}}", 1 + rng.below(sec + 2)), 3 => format!("@&(=~{})mix{{}}", 1 + rng.below(sec + 2)), 4 => "@flour{1%kg} and @&flour{}".to_string(), _ => "@salt{}".to_string() };
+                    s.push_str(&format!("Step with {target} here.\n\n"));
+                    steps += 1;
+                }
+            }
+            texts.push((s, if i % 7 == 0 { crate::gen::ext_pattern(rng.below(256)) } else { 0xEEA }, (i % 2) as u8));
+        }
+        for (t, e, conv) in texts {
+            n += 1;
+            if let Some(res) = recipe_case(ctx, &t, e, conv) {
+                if let Some(r) = res.output() {
+                    ctx.count(if res.is_valid() { "wf/targeted:valid" } else { "wf/targeted:invalid" });
+                    if let Some((sig, m)) = check_invariant(r, res.is_valid()) { ctx.oracle_fail(format!("ext={e} conv={conv} input={t:?}"), m, sig); }
+                }
+            }
+        }
+    }
     crate::props::c04::inputs(ctx, 0xC06, &mut |ctx, s, e| {
         n += 1;
         let conv = (n % 2) as u8;
